@@ -10,7 +10,9 @@ CLAIMED = {
              'inverses, k^2 / k^3 laws); the theorems are about Gallina regenerated from pointvector.py on each run. How the '
              'shape classes compose these kernels is proved for segments and rays in 2D and 3D (every transform maps the point at '
              'parameter t onto the point at parameter t of the image), spheres (surface points go to surface points; radius times '
-             'the factor) and cylinders / cones (the axis line is carried pointwise, radius scaled, opening angle kept). '
+             'the factor), cylinders / cones (the axis line is carried pointwise, radius scaled, opening angle kept) and planes (for an '
+             'orthonormal frame each of move / rotate / rotate_xy / reflect / scale / flip returns an orthonormal frame whose normal, x axis '
+             'and origin are the images of the old ones and which contains the image of every point of the old plane). '
              'Per-class behaviour of all 21 classes x 5 transforms is searched against an independent exact reference.',
         note='Trusted: Coq kernel, py2coq translator, harness. cos/sin/sqrt enter as function parameters with pointwise hypotheses '
              '(cos^2+sin^2==1, sqrt(x)^2==x). Class-level composition (which kernel is applied to which field) is proved only for the '
